@@ -55,6 +55,7 @@ func runHistory(t *rapid.T, persistent bool) {
 	defer w.Close()
 
 	var failedKeysRead, heldAcrossRotation, rotationsDuringSlicing, overlappedFM, parkedFM, writerQueued int
+	var uploadDuringWrite, uploadBlockedOnSector, overlappedComposite int
 	failedObjs := map[*lstore.Obj]bool{}
 
 	newUpload := func() {
@@ -231,7 +232,19 @@ func runHistory(t *rapid.T, persistent bool) {
 					}
 				}
 			}
-			w.GetFromCompositeDuring(o, inst, cuts, want, during)
+			if rapid.IntRange(0, 3).Draw(t, "secondCompositeClient") == 0 {
+				// A second client asks for a child of the same parent while
+				// the first call is slicing: it queues on the refresh lock
+				// and afterwards finds the parent (and usually the child
+				// entry) already in place.
+				want2 := rapid.IntRange(0, ncuts).Draw(t, "want2")
+				c.Add("composite2", want2)
+				if w.OverlappedComposite(o, inst, cuts, want, want2, during) {
+					overlappedComposite++
+				}
+			} else {
+				w.GetFromCompositeDuring(o, inst, cuts, want, during)
+			}
 			if failedObjs[o] {
 				failedKeysRead++
 			}
@@ -339,6 +352,37 @@ func runHistory(t *rapid.T, persistent bool) {
 				writerQueued++
 			}
 		},
+		// Two uploads allocated back to back, the second one issued while
+		// a data-device write of the first is in flight: the tail sector of
+		// the first and the head of the second share a sector whose writes
+		// must be serialised.
+		"putDuringWrite": func(t *rapid.T) {
+			if cfg.Mutable || !cfg.BlockDevice || len(w.Inflight()) > 0 {
+				fallback()
+				return
+			}
+			ss := cfg.SectorSize
+			max := 2 * ss
+			if max > cfg.BlockSize() {
+				max = cfg.BlockSize()
+			}
+			sizeA := rapid.IntRange(1, max).Draw(t, "sizeA")
+			sizeB := rapid.IntRange(1, max).Draw(t, "sizeB")
+			skip := rapid.IntRange(0, 1).Draw(t, "skipWrites")
+			c.Add("putDuringWrite", sizeA, sizeB, skip)
+			o := w.NewObject(sizeA, lstore.Functions[0])
+			u := w.StartPut(o, "", "good", o.Data, nil, nil)
+			fired, blocked := w.WithUploadDuringWrite(sizeB, skip, func() { w.FinishPut(u) })
+			if fired {
+				uploadDuringWrite++
+			}
+			if blocked {
+				uploadBlockedOnSector++
+			}
+			// Both must read back exactly.
+			w.Get(o, "")
+			w.Get(w.Uploads[len(w.Uploads)-1].Obj, "")
+		},
 		"": func(t *rapid.T) {
 			w.Poll()
 			w.CheckMonitors()
@@ -378,6 +422,9 @@ func runHistory(t *rapid.T, persistent bool) {
 	c.ClassIf(overlappedFM > 0, "findmissing_waited_for_refresh_lock_during_uploads")
 	c.ClassIf(parkedFM > 0, "findmissing_parked_in_refresh_copy")
 	c.ClassIf(writerQueued > 0, "upload_queued_on_write_lock_during_read_locked_section")
+	c.ClassIf(uploadDuringWrite > 0, "upload_issued_while_data_write_in_flight")
+	c.ClassIf(uploadBlockedOnSector > 0, "upload_waited_for_shared_sector_mutex")
+	c.ClassIf(overlappedComposite > 0, "second_composite_read_waited_for_refresh_lock")
 	c.ClassIf(w.Flags["findmissing_refresh_target_rotated_away"] > 0, "findmissing_refresh_target_rotated_away")
 	c.ClassIf(w.St.BL.PopFronts > 0, "rotated")
 	c.ClassIf(w.St.Alloc.NewBlockFailures > 0, "alloc_failures")
